@@ -280,10 +280,14 @@ def fma_probes(pty, level=1):
     twobit = []
     for mm in range(fb0 + 1, 2 * fb0 + 1):
         Nn = (1 << mm) + 1
-        for A_ in range(3, 1 << W_, 2):
-            if Nn % A_ == 0 and (Nn // A_) < (1 << W_) and (Nn // A_) > 1:
-                twobit.append((mm, A_, Nn // A_))
-                break
+        # algebraic factor: 2^a + 1 divides 2^mm + 1 whenever mm / a is odd
+        for a_ in range(1, mm):
+            if mm % a_ == 0 and (mm // a_) % 2 == 1 and (mm // a_) >= 3:
+                A_ = (1 << a_) + 1
+                B_ = Nn // A_
+                if Nn % A_ == 0 and 1 < A_ < (1 << W_) and 1 < B_ < (1 << W_):
+                    twobit.append((mm, A_, B_))
+                    break
     tb_scales = scales if (level > 1 or n <= 16) else scales[::3]
     for s in tb_scales:
         fb = _frac_bits_at(p, s)
@@ -448,3 +452,26 @@ def mul_sparse_probes(pty, per_case=6):
             seen.add(pr)
             uniq.append(pr)
     return uniq
+
+
+# ------------------------------------------------------------------------------------------------ memoisation (generation uses exact rationals)
+_CACHE = {}
+
+
+def _memo(fn):
+    def g(pty, *a, **k):
+        key = (fn.__name__, pty.posit.n, pty.posit.es, a, tuple(sorted(k.items())))
+        if key not in _CACHE:
+            _CACHE[key] = fn(pty, *a, **k)
+        return list(_CACHE[key])
+    g.__name__ = fn.__name__
+    g.__doc__ = fn.__doc__
+    return g
+
+
+op_probes = _memo(op_probes)
+fma_probes = _memo(fma_probes)
+fma_sparse_probes = _memo(fma_sparse_probes)
+mul_sparse_probes = _memo(mul_sparse_probes)
+posit_probes = _memo(posit_probes)
+small_posit_probes = _memo(small_posit_probes)
